@@ -458,6 +458,25 @@ theorem mapSt_ne_fuel {α β : Type} (f : List Str → α → Except UErr (β ×
       | error e => simp only [ne_eq, Except.error.injEq]; intro he; exact ih' (by rw [hm, he])
       | ok r2 => simp
 
+theorem mapStKvs_ne_fuel {α : Type} (f : List Str → α → Except UErr (PV × List Str)) (kvs : List (Str × α))
+    (h : ∀ kv ∈ kvs, ∀ r, f r kv.2 ≠ .error .fuel) : ∀ reg, mapStKvs f reg kvs ≠ .error .fuel := by
+  induction kvs with
+  | nil => intro reg; simp [mapStKvs]
+  | cons kv rest ih =>
+    obtain ⟨k, x⟩ := kv
+    intro reg
+    have hx := h (k, x) (by simp) reg
+    simp only [mapStKvs]
+    cases hfx : f reg x with
+    | error e => simp only [ne_eq, Except.error.injEq]; intro he; exact hx (by rw [hfx, he])
+    | ok r =>
+      obtain ⟨y, reg1⟩ := r
+      have ih' := ih (fun z hz => h z (by simp [hz])) reg1
+      simp only
+      cases hm : mapStKvs f reg1 rest with
+      | error e => simp only [ne_eq, Except.error.injEq]; intro he; exact ih' (by rw [hm, he])
+      | ok r2 => simp
+
 /-- One level of `_serialize_with_tracking`: it terminates when it does on every value below an object that it
     enters (`sub`). -/
 theorem serF_ev_step (c : Codecs) (heap : Heap) (decls : Decls) (visited : List Nat)
@@ -500,7 +519,17 @@ theorem serF_ev_step (c : Codecs) (heap : Heap) (decls : Decls) (visited : List 
           | error e => simp only [ne_eq, Except.error.injEq]; intro he; exact this (by rw [hm, he])
           | ok pr => simp
         | dict kvs =>
-          exact helse (fun n reg => by simp only [serF, hvis, hg, Bool.false_eq_true, if_false]; rfl)
+          obtain ⟨N, hN⟩ := eventually_forall_mem kvs
+            (fun kv fuel reg => serF c fuel heap decls (id :: visited) reg kv.2 ≠ .error .fuel)
+            (fun kv _ => sub id _ hg hvis kv.2)
+          refine ⟨N + 1, fun fuel hf reg => ?_⟩
+          obtain ⟨n, rfl⟩ : ∃ n, fuel = n + 1 := ⟨fuel - 1, by omega⟩
+          simp only [serF, hvis, hg, Bool.false_eq_true, if_false]
+          have := mapStKvs_ne_fuel (fun r x => serF c n heap decls (id :: visited) r x) kvs
+            (fun kv hkv r' => hN n (by omega) r' kv hkv) reg
+          cases hm : mapStKvs (fun r x => serF c n heap decls (id :: visited) r x) reg kvs with
+          | error e => simp only [ne_eq, Except.error.injEq]; intro he; exact this (by rw [hm, he])
+          | ok pr => simp
         | inst cls attrs =>
           -- cattrs on the instance
           obtain ⟨N1, hN1⟩ := unstr_ev_all c heap decls _ visited (Nat.le_refl _) (some (.dc cls)) (.ref id)
